@@ -116,6 +116,39 @@ def _cond_version(f, cond, if_node, stop, first_line):
     return "" if cnt == 0 else "@%d" % cnt
 
 
+def _ends_in_jump(st):
+    if st is None:
+        return False
+    if st["k"] in ("BreakStmt", "ReturnStmt", "ContinueStmt", "GotoStmt"):
+        return True
+    if st["k"] == "CompoundStmt":
+        body = [c for c in st["c"] if c is not None]
+        return bool(body) and _ends_in_jump(body[-1])
+    return False
+
+
+def _atoms(f, cond, pol, if_node, stop, first_line):
+    """A guard as a list of (atomic condition, polarity): `!E`, `E == NULL`, `E != 0` fold into the polarity, a conjunction that
+    holds / a disjunction that fails splits into its operands - so that `if (p && p->len > 1)` and
+    `if (p == NULL) break; if (p->len > 1)` describe the same guard."""
+    from .prog import const_value
+    c = strip(cond)
+    if c is None:
+        return []
+    if c["k"] == "UnaryOperator" and c["op"] == "!":
+        return _atoms(f, c["c"][0], not pol, if_node, stop, first_line)
+    if c["k"] == "BinaryOperator" and c["op"] in ("==", "!=") and (const_value(c["c"][1]) == 0 or const_value(c["c"][0]) == 0):
+        other = c["c"][0] if const_value(c["c"][1]) == 0 else c["c"][1]
+        so = strip(other)
+        # only fold tests of pointers / flags, not arithmetic comparisons with zero of calls such as strcmp(..) == 0
+        if so is not None and so["k"] in ("DeclRefExpr", "MemberExpr"):
+            return _atoms(f, other, pol if c["op"] == "!=" else not pol, if_node, stop, first_line)
+    has_else = if_node["k"] == "IfStmt" and len(if_node["c"]) > 2 and if_node["c"][2] is not None
+    if not has_else and c["k"] == "BinaryOperator" and ((c["op"] == "&&" and pol) or (c["op"] == "||" and not pol)):
+        return _atoms(f, c["c"][0], pol, if_node, stop, first_line) + _atoms(f, c["c"][1], pol, if_node, stop, first_line)
+    return [(resolve_key(f, cond) + _cond_version(f, cond, if_node, stop, first_line), pol)]
+
+
 def _ctx(f, n, stop, labels, first_line=0):
     ctx = []
     cur = n
@@ -123,11 +156,11 @@ def _ctx(f, n, stop, labels, first_line=0):
         if a is stop:
             break
         if a["k"] == "IfStmt":
-            ver = _cond_version(f, a["c"][0], a, stop, first_line)
             if a["c"][1] is not None and any(x is cur for x in walk(a["c"][1])):
-                ctx.append((resolve_key(f, a["c"][0]) + ver, True))
+                ctx += _atoms(f, a["c"][0], True, a, stop, first_line)
             elif len(a["c"]) > 2 and a["c"][2] is not None and any(x is cur for x in walk(a["c"][2])):
-                ctx.append((resolve_key(f, a["c"][0]) + ver, False))
+                ctx += _atoms(f, a["c"][0], False, a, stop, first_line)
+
         elif a["k"] in ("CaseStmt", "DefaultStmt"):
             lab = "default" if a["k"] == "DefaultStmt" else (a.get("en") or str(a.get("v")))
             own = next((b for b in f.ancestors(a) if b["k"] == "SwitchStmt"), None)
@@ -152,6 +185,11 @@ def _ctx(f, n, stop, labels, first_line=0):
         elif a["k"] in ("WhileStmt", "ForStmt", "DoStmt"):
             ctx.append(("loop", str(a["l"] - stop["l"])))
         cur = a
+    # a non-null test of X is implied by another guard of the same event that dereferences X (`X && X->len > 1` vs.
+    # `if (!X) break; .. if (X->len > 1)`): drop it
+    keys = [k for k, p_ in ctx if isinstance(k, str)]
+    ctx = [(k, p_) for k, p_ in ctx if not (p_ is True and isinstance(k, str) and re.match(r"^[A-Za-z_][\w>.-]*?(@\d+)?$", k) and
+                                            any((k.split("@")[0] + "->") in k2 for k2 in keys if k2 != k))]
     return frozenset(ctx)
 
 
@@ -260,8 +298,18 @@ def r_balance(P, chk, units=None):
                             for hc in h.calls():
                                 hs = _literal(hc)
                                 if hs:
-                                    hx = frozenset()
-                                    items += [(k, nm, hx) for k, nm in _events_in_literal(hs, mode)]
+                                    # guards inside the helper (over its own parameters) qualify the event
+                                    # (a helper that loops - the outline stack walkers - is data dependent anyway: its
+                                    # events stay unqualified, as before)
+                                    loops = any(y["k"] in ("WhileStmt", "ForStmt", "DoStmt") for y in h.walk())
+                                    hx = frozenset() if loops else frozenset(
+                                        ("%s:%s" % (h.name, k2) if isinstance(k2, str) else k2, p2) for k2, p2 in _ctx(h, hc, h.body, [], 0))
+                                    hev = _events_in_literal(hs, mode)
+                                    if mode == "tex":
+                                        t_ = re.sub(r"\\\\|\\[{}]", "", hs)
+                                        d_ = t_.count("{") - t_.count("}")
+                                        hev = hev + [("o" if d_ > 0 else "c", "{group}")] * abs(d_)
+                                    items += [(k, nm, hx) for k, nm in hev]
                     if not items:
                         continue
                     cx = _ctx(f, c, sw, labels, sect[0]["l"])
